@@ -76,6 +76,11 @@ func contractServes(c *Contract, p string) bool {
 			return true
 		}
 	}
+	for _, cl := range c.Goals {
+		if hasProp(cl.Props, p) {
+			return true
+		}
+	}
 	for _, l := range c.Loops {
 		for _, cl := range l.Invariants {
 			if hasProp(cl.Props, p) {
